@@ -393,6 +393,8 @@ type StreamScenario struct {
 	// RejectAfterP1 > 0: the history re-announces a table with a column count the mapper's table does not have; the
 	// stream must end with an error after exactly this many transactions
 	RejectAfterP1 int // (value + 1; 0 = none)
+	// Model: for sessions generated by TLC (Gen_Session) the model's per-attempt predictions, copied into the scenario line
+	Model interface{}
 }
 
 func cellsJ(cs []Cell, t *Table) []M {
@@ -487,10 +489,14 @@ func (sc *StreamScenario) J(withBytes bool) M {
 		atts = append(atts, a.J())
 	}
 	c := sc.Log.Cfg
-	return M{"ev": "scenario", "id": sc.ID, "fam": sc.Fam, "note": sc.Note,
+	m := M{"ev": "scenario", "id": sc.ID, "fam": sc.Fam, "note": sc.Note,
 		"cfg":   M{"cksum": c.Checksum, "rowsv2": c.RowsV2, "tidw": c.TidW, "gtid": c.Gtid, "ntypes": c.NTypes},
 		"start": M{"file": B(sc.Start.File), "off": u32s(sc.Start.Off)}, "serverid": u32s(sc.ServerID),
 		"files": files, "attempts": atts, "resume": sc.Resume, "rejectAfter": sc.RejectAfterP1 - 1}
+	if sc.Model != nil {
+		m["model"] = sc.Model
+	}
+	return m
 }
 
 // ---- running ---------------------------------------------------------------------------------
